@@ -8,6 +8,11 @@ use std::collections::BTreeMap;
 const NAMES: [&str; 14] = ["a", "b", "c", "p::x", "p::y", "nope", "p", "px", "p_q::x", "p:", "pp::x", "p::::z", "a::x", "a::::y"];
 const VALS: [&str; 6] = ["1", "two", "x y", "false", "", " "];
 
+/// names for the *_by_name family: also names padded with a blank (" a" and "a " are variables of their own)
+fn pick_name(r: &mut Rng) -> String {
+    if r.chance(1, 6) { r.pick(&[" a", "a ", " p::x", "b "]).to_string() } else { r.pick(&NAMES).to_string() }
+}
+
 pub fn gen(r: &mut Rng) -> Value {
     let n = 2 + r.below(10);
     let mut ops = vec![];
@@ -21,13 +26,13 @@ pub fn gen(r: &mut Rng) -> Value {
             }
             12 => json!({"op": "all_names", "out": r.pick(&["names", "a", "p::x"])}),
             0..=2 => json!({"op": "set", "name": r.pick(&NAMES), "value": r.pick(&VALS)}),
-            3 => json!({"op": "set_by_name", "name": r.pick(&NAMES), "value": r.pick(&VALS)}),
-            4 => json!({"op": "unset_by_name", "name": r.pick(&NAMES)}),
-            5 => json!({"op": "get_by_name", "name": r.pick(&NAMES)}),
-            6 => json!({"op": "is_defined", "name": r.pick(&NAMES)}),
+            3 => json!({"op": "set_by_name", "name": pick_name(r), "value": r.pick(&VALS)}),
+            4 => json!({"op": "unset_by_name", "name": pick_name(r)}),
+            5 => json!({"op": "get_by_name", "name": pick_name(r)}),
+            6 => json!({"op": "is_defined", "name": pick_name(r)}),
             7 => {
                 if r.chance(1, 2) {
-                    json!({"op": "unset_all_vars", "prefix": r.pick(&["p::", "p", "p:", "a", "pp"])})
+                    json!({"op": "unset_all_vars", "prefix": r.pick(&["p::", "p", "p:", "a", "pp", "", " "])})
                 } else {
                     json!({"op": "unset_all_vars"})
                 }
@@ -74,24 +79,24 @@ pub fn run(input: &Value) -> Option<Value> {
             "set_by_name" => {
                 let v = op["value"].as_str()?;
                 vars.insert(name.to_string(), v.to_string());
-                format!("set_by_name {} {}", name, q(v))
+                format!("set_by_name {} {}", q(name), q(v))
             }
             "unset_by_name" => {
                 vars.remove(name);
-                format!("set_by_name {}", name)
+                format!("set_by_name {}", q(name))
             }
             "get_by_name" => {
                 expect_out = Some(vars.get(name).cloned());
-                format!("__out = get_by_name {}", name)
+                format!("__out = get_by_name {}", q(name))
             }
             "is_defined" => {
                 expect_out = Some(Some(vars.contains_key(name).to_string()));
-                format!("__out = is_defined {}", name)
+                format!("__out = is_defined {}", q(name))
             }
             "unset_all_vars" => match op["prefix"].as_str() {
                 Some(p) => {
                     vars.retain(|k, _| !k.starts_with(p));
-                    format!("unset_all_vars --prefix {}", p)
+                    format!("unset_all_vars --prefix {}", q(p))
                 }
                 None => {
                     vars.clear();
